@@ -425,7 +425,8 @@ func runC16(c *Ctx, r *Report, tier string) {
 					continue
 				}
 				t := c.term(ia.X)
-				r.Check(strings.HasPrefix(t, "call:(*Command).sortedVisibleCommands("), "COMMANDS", c.fname(fn), "iterated command list", c.ipos(in), "sortedVisibleCommands()", "iterates "+trunc(t, 100))
+				// (a sub-slice of the visible list is still the visible list: `for _, c := range cmds[1:]` when measuring)
+				r.Check(strings.HasPrefix(t, "call:(*Command).sortedVisibleCommands(") || strings.HasPrefix(t, "slice(call:(*Command).sortedVisibleCommands("), "COMMANDS", c.fname(fn), "iterated command list", c.ipos(in), "sortedVisibleCommands()", "iterates "+trunc(t, 100))
 			}
 		}
 	}
